@@ -10,7 +10,10 @@ import (
 
 func c07Kinds(key string) []string {
 	switch {
-	case strings.Contains(key, ":W.GetLatest#"), strings.Contains(key, ":R.GetLatest#"):
+	case strings.Contains(key, ":W.GetLatest#"):
+		// five error kinds, and three reads that "succeed" with damaged bytes (see damagedRead)
+		return []string{"unavailable", "plain", "conndone", "internal", "deadline", "corrupt", "torn", "blank"}
+	case strings.Contains(key, ":R.GetLatest#"):
 		return []string{"unavailable", "plain", "conndone", "internal", "deadline"}
 	case strings.Contains(key, ":drv.Begin#"):
 		return []string{"fail", "badconn"}
@@ -144,7 +147,7 @@ func init() {
 	register(&Scenario{
 		Prop:  "C07",
 		Level: "fault_enumeration",
-		Rule:  "per seeded history (first use, growth, refresh, forks presented as first use, stale, bad proof, bad signature; 1..3 logs; in-memory and single-connection SQLite): a fault-free dry run lists every storage call, then EVERY single fault position is executed - interface level (open-for-write, read-latest with 5 non-NotFound error kinds, write, close) or SQL-driver level (begin incl. bad-connection, query, row fetch, exec, commit, rollback) - plus sampled multi-fault patterns (bursts, every other call, everything up to op k) and, on SQLite, VFS-level IOERR / disk-full / short-write windows; each execution ends with a fault-free tail (honest next step per log, then a fork attempt). Oracles: accepted => a fault-free read returns exactly those bytes; failed => store unchanged; commit sequence stays one append-only history (a fork accepted because a failing read looked like 'nothing stored' is the TOFU trap); the tail builds on the last committed state; no wedge (scheduler wedge detection on the one-connection pool), handles opened = closed, sql.DB InUse = 0. evaluations = executions; non-trivial = the injected fault actually fired inside an update; distinct = distinct (call, error kind, op kind, state class, outcome) tuples",
+		Rule:  "per seeded history (first use, growth, refresh, forks presented as first use, stale, bad proof, bad signature; 1..3 logs; in-memory and single-connection SQLite): a fault-free dry run lists every storage call, then EVERY single fault position is executed - interface level (open-for-write, read-latest with 5 non-NotFound error kinds and 3 kinds of damaged bytes returned without an error - one flipped character in the root-hash line, the first half only, nothing -, write, close) or SQL-driver level (begin incl. bad-connection, query, row fetch, exec, commit, rollback) - plus sampled multi-fault patterns (bursts, every other call, everything up to op k) and, on SQLite, VFS-level IOERR / disk-full / short-write windows; each execution ends with a fault-free tail (honest next step per log, then a fork attempt). Oracles: accepted => a fault-free read returns exactly those bytes; failed => store unchanged; commit sequence stays one append-only history (a fork accepted because a failing read looked like 'nothing stored' is the TOFU trap); the tail builds on the last committed state; no wedge (scheduler wedge detection on the one-connection pool), handles opened = closed, sql.DB InUse = 0. evaluations = executions; non-trivial = the injected fault actually fired inside an update; distinct = distinct (call, error kind, op kind, state class, outcome) tuples",
 		Gen: func(r *Rng, tier string, n uint64) *Plan {
 			if n%11 == 10 {
 				// through the add-checkpoint endpoint: a spell of storage errors (low rates, so that little burst is left), then
